@@ -136,6 +136,60 @@ def register(OPS, drv):
         finally:
             w.close()
 
+    def op_live(job):
+        """The real ThreadingTCPServer + GopherRequestHandler on an ephemeral port with the
+        demo certificate; plain requests over TCP, TLS requests through a real ssl client."""
+        import ssl
+        import pygopherd.server as pserver
+        spec = dict(job)
+        cfg = dict(spec.get("config") or {})
+        pg = dict(cfg.get("pygopherd", {}))
+        pg.update({"servername": "gopher.example", "advertisedport": "70", "timeout": "20"})
+        cfg["pygopherd"] = pg
+        spec["config"] = cfg
+        w = drv.World(spec)
+        crt = os.path.join(drv.REPO, "testdata", "demo.crt")
+        key = os.path.join(drv.REPO, "testdata", "demo.key")
+        ctx = ssl.create_default_context(ssl.Purpose.CLIENT_AUTH)
+        ctx.load_cert_chain(crt, key)
+        cctx = ssl.SSLContext(ssl.PROTOCOL_TLS_CLIENT)
+        cctx.check_hostname = False
+        cctx.verify_mode = ssl.CERT_NONE
+        srv = pserver.ThreadingTCPServer(w.config, ("127.0.0.1", 0), pserver.GopherRequestHandler, context=ctx)
+        srv.daemon_threads = True
+        th = threading.Thread(target=srv.serve_forever, kwargs={"poll_interval": 0.05}, daemon=True)
+        th.start()
+        res = []
+        try:
+            for r in job["requests"]:
+                got = []
+                err = None
+                s = socket.create_connection(srv.server_address[:2], timeout=20)
+                try:
+                    if r.get("tls"):
+                        s = cctx.wrap_socket(s)
+                    s.sendall(drv.s2b(r["data"]))
+                    while True:
+                        d = s.recv(1 << 16)
+                        if not d:
+                            break
+                        got.append(d)
+                except Exception as e:  # what a client would see
+                    err = type(e).__name__ + ": " + str(e)
+                finally:
+                    try:
+                        s.close()
+                    except Exception:
+                        pass
+                res.append({"out_b64": base64.b64encode(b"".join(got)).decode("ascii"), "exc": err, "log": [], "secs": 0})
+        finally:
+            srv.shutdown()
+            srv.server_close()
+            th.join(timeout=5)
+            w.close()
+        return {"root": w.root, "results": res}
+
+    OPS["c04_live"] = op_live
     OPS["c04_escape"] = op_escape
     OPS["c04_dec"] = op_dec
     OPS["c04_splitext"] = op_splitext
